@@ -5,6 +5,7 @@
 -/
 import CnvVerif.Generated.ExprsByGene
 import CnvVerif.Model.Genes
+set_option linter.unusedSimpArgs false
 namespace CnvVerif.Genes
 open CnvVerif CnvVerif.Generated
 
@@ -18,13 +19,13 @@ def posSlice (rs : List Bin) (y : String × Nat × Option Nat) : String × List 
 /-- the loop of `by_gene` over the gene map of one chromosome, run with the GENERATED loop body and telomere step -/
 def srcLoop (rs : List Bin) (ign : List String) (T : List (Nat × String)) :
     Nat → List (Nat × String) → List (String × List Bin)
-  | prev, [] => (src_by_gene_tail prev rs.length).map (posSlice rs)
+  | prev, [] => (src_by_gene_tail rs.length prev).map (posSlice rs)
   | prev, (_, g) :: ks =>
-    (src_by_gene_step g ign (geneIdx T g) prev).1.map (posSlice rs) ++
-      srcLoop rs ign T (src_by_gene_step g ign (geneIdx T g) prev).2 ks
+    (src_by_gene_step ign g (geneIdx T g) prev).1.map (posSlice rs) ++
+      srcLoop rs ign T (src_by_gene_step ign g (geneIdx T g) prev).2 ks
 
 theorem goPos_nil_src (rs : List Bin) (ign : List String) (T : List (Nat × String)) (prev : Nat) :
-    goPos rs ign T prev [] = (src_by_gene_tail prev rs.length).map (posSlice rs) := by
+    goPos rs ign T prev [] = (src_by_gene_tail rs.length prev).map (posSlice rs) := by
   unfold goPos src_by_gene_tail
   by_cases h : prev < rs.length
   · simp [h, posSlice, antitarget, ANTITARGET_NAME]
@@ -33,8 +34,8 @@ theorem goPos_nil_src (rs : List Bin) (ign : List String) (T : List (Nat × Stri
 theorem goPos_cons_src (rs : List Bin) (ign : List String) (T : List (Nat × String)) (prev i : Nat) (g : String)
     (ks : List (Nat × String)) :
     goPos rs ign T prev ((i, g) :: ks) =
-      (src_by_gene_step g ign (geneIdx T g) prev).1.map (posSlice rs) ++
-        goPos rs ign T (src_by_gene_step g ign (geneIdx T g) prev).2 ks := by
+      (src_by_gene_step ign g (geneIdx T g) prev).1.map (posSlice rs) ++
+        goPos rs ign T (src_by_gene_step ign g (geneIdx T g) prev).2 ks := by
   rw [goPos]
   unfold src_by_gene_step
   by_cases hg : g ∈ ign
@@ -56,8 +57,8 @@ theorem goPos_cons_src (rs : List Bin) (ign : List String) (T : List (Nat × Str
       simp only [List.head?_cons, hla, List.length_cons, ne_eq, Nat.add_eq_zero_iff, Nat.succ_ne_self, and_false,
         not_false_eq_true, not_true_eq_false, ↓reduceIte, List.headD_cons, hD]
       by_cases hp : prev < a
-      · simp [hp, posSlice, antitarget, ANTITARGET_NAME]
-      · simp [hp, posSlice]
+      · simp [hp, posSlice, antitarget, ANTITARGET_NAME, Nat.add_comm 1]
+      · simp [hp, posSlice, Nat.add_comm 1]
 
 theorem goPos_eq_srcLoop (rs : List Bin) (ign : List String) (T : List (Nat × String)) :
     ∀ (ks : List (Nat × String)) (prev : Nat), goPos rs ign T prev ks = srcLoop rs ign T prev ks := by
